@@ -44,8 +44,12 @@ for _a in ('c11', 'sync', 'sim'):
             per_file_flags={'patomic-': '-fsanitize-coverage=trace-pc', 'pspinlock-': '-fsanitize-coverage=trace-pc'},
             redefine='engines/dsched/redefine.syms')
 # fault-wrapper configurations: libc calls of selected objects redirected to vs_* wrappers
-CONFIGS['gcc-asan-wrap'] = dict(cc='gcc', cxx='g++', cflags='-O1 -g ' + SAN, atomic='c11', rwlock='posix',
-                                redefine='engines/fault/redefine.syms')
+CONFIGS['gcc-asan-wrapipc'] = dict(cc='gcc', cxx='g++', cflags='-O1 -g ' + SAN, atomic='c11', rwlock='posix',
+                                   redefine='engines/ipcx/redefine.syms',
+                                   redefine_only=('psemaphore-posix.c', 'pshm-posix.c', 'psysclose-unix.c'))
+CONFIGS['gcc-asan-wrapnet'] = dict(cc='gcc', cxx='g++', cflags='-O1 -g ' + SAN, atomic='c11', rwlock='posix',
+                                   redefine='engines/netx/redefine.syms',
+                                   redefine_only=('psocket.c', 'psysclose-unix.c', 'puthread.c', 'psemaphore-posix.c', 'pshm-posix.c'))
 
 HARNESSES = {}  # filled by props.py: name -> dict(src, config, libs, cxxflags, extra_srcs)
 
@@ -133,7 +137,7 @@ def generate(harness_names):
             for pref, extra in c.get('per_file_flags', {}).items():
                 if b.startswith(pref):
                     f += ' ' + extra
-            if c.get('redefine'):
+            if c.get('redefine') and (not c.get('redefine_only') or b in c['redefine_only']):
                 raw = os.path.join(root, cfg, 'raw', b + '.o')
                 lines += ['build %s: cc %s' % (nesc(raw), nesc(s)), '  cc = ' + c['cc'], '  flags = ' + f]
                 symf = os.path.join(VERIF, c['redefine'])
